@@ -1,3 +1,4 @@
 import HpoProps.C12
 import HpoProps.C20
 import HpoProps.C11
+import HpoProps.C14
